@@ -33,7 +33,7 @@ func init() { core.Register(prop{}) }
 func (prop) ID() string    { return "C07" }
 func (prop) Level() string { return "fault_enumeration" }
 func (prop) Rule() string {
-	return "direct: every sequence of up to 4 (quick) / 6 (thorough) single-line writes with line lengths from {10, 11, 511, 512, 1022, 1023, 1024, 1025, 2049} to the real rotating writer with max size 1024 (exhaustive), seeded sequences of multi-line batches for max sizes 1024/4096/1 MiB, with the log file renamed or removed externally, or the writer closed and a new instance opened on the same path (restart), between writes (fault points: before every write; restart exhaustively for sequences up to 3 writes); end to end: the real FileBackend fed bursts of 1..5000 stamped events of 2 B..600 KiB from 1/4/32 goroutines, read back after 2.5 flush intervals; faults: destination directory missing or unwritable before the writer opens the file. Non-trivial = a sequence that caused >=1 rotation or a backend whose file received >=1 line; distinct by sequence / backend parameters. In a third of the real-backend scenarios an unserialisable event (NaN value) follows every fifth stamped event."
+	return "direct: every sequence of up to 4 (quick) / 6 (thorough) single-line writes with line lengths from {10, 11, 511, 512, 1022, 1023, 1024, 1025, 2049} to the real rotating writer with max size 1024 (exhaustive), seeded sequences of multi-line batches for max sizes 1024/4096/1 MiB, with the log file renamed or removed externally, or the writer closed and a new instance opened on the same path (restart), between writes (fault points: before every write; restart exhaustively for sequences up to 3 writes); end to end: the real FileBackend fed bursts of 1..5000 stamped events of 2 B..600 KiB from 1/4/32 goroutines, read back 2.5 s after the last Send and again until the files have been at rest for 2 s; faults: destination directory missing or unwritable before the writer opens the file. Non-trivial = a sequence that caused >=1 rotation or a backend whose file received >=1 line; distinct by sequence / backend parameters. In a third of the real-backend scenarios an unserialisable event (NaN value) follows every fifth stamped event."
 }
 func (prop) Assumptions() []string {
 	return []string{"a final line without trailing newline counts as a line if it parses", "lines removed by the harness's own external 'rm' are not expected back; an externally renamed file is read back under its new name", "under an unwritable destination only 'Send does not block forever' is demanded"}
@@ -490,8 +490,41 @@ func childBackend(b core.Batch, p params, o *core.Obs) {
 			if fault != "" {
 				return // nothing is promised to reach an unwritable destination
 			}
+			// the writer flushes one second after the last event; on a loaded machine that second can be a long
+			// one. Read back after 2.5 s, and again until every stamp is there or the files have not changed for
+			// two seconds (at most 30 s): "lost" is decided on files that have come to rest
 			time.Sleep(2500 * time.Millisecond)
 			rb := readAll(path, maxSize)
+			sig := func() string {
+				fs, _ := filepath.Glob(path + "*")
+				var sb strings.Builder
+				for _, f := range fs {
+					if st, err := os.Stat(f); err == nil {
+						fmt.Fprintf(&sb, "%s:%d;", f, st.Size())
+					}
+				}
+				return sb.String()
+			}
+			last, stable := sig(), 0
+			for waited := 0; waited < 55 && stable < 4; waited++ {
+				missing := false
+				for s := 0; s < nev; s++ {
+					if rb.Stamps[s] == 0 {
+						missing = true
+						break
+					}
+				}
+				if !missing {
+					break
+				}
+				time.Sleep(500 * time.Millisecond)
+				if cur := sig(); cur == last {
+					stable++
+				} else {
+					last, stable = cur, 0
+				}
+				rb = readAll(path, maxSize)
+			}
 			if len(rb.Stamps) > 0 {
 				mu.Lock()
 				ob.WithData++
@@ -514,7 +547,7 @@ func childBackend(b core.Batch, p params, o *core.Obs) {
 				}
 			}
 			if lost > 0 {
-				bad("lost-event", fmt.Sprintf("%d of %d events are on no file 2.5 s after the last Send (first: stamp %d; %d files on disk)", lost, nev, firstLost, rb.Files), desc)
+				bad("lost-event", fmt.Sprintf("%d of %d events are on no file after the last Send (files at rest for 2 s) (first: stamp %d; %d files on disk)", lost, nev, firstLost, rb.Files), desc)
 			}
 			if dup > 0 {
 				bad("duplicated-event", fmt.Sprintf("%d events appear more than once", dup), desc)
